@@ -4,6 +4,7 @@ import NomtModel.Driver.ImageMode
 import NomtModel.Driver.AllocMode
 import NomtModel.Driver.LocksMode
 import NomtModel.Driver.WalImage
+import NomtModel.Driver.OvlMode
 /-!
 `nomt_model`: the executable Lean model behind a line protocol.
 First argument selects the sub-protocol; stdin → stdout, one output line per input line.
@@ -27,4 +28,5 @@ def main (args : List String) : IO UInt32 := do
   | ["alloc"] => loop stdin stdout allocStep (); return 0
   | ["locks"] => loop stdin stdout locksStep locksInit; return 0
   | ["wal"] => walLoop stdin stdout; return 0
+  | ["ovl"] => loop stdin stdout ovlStep {}; return 0
   | _ => IO.eprintln "usage: nomt_model <core|...>"; return 2
